@@ -156,22 +156,33 @@ def structural(ctx):
     """Inherited members that are not overridden are the provider's very function object, with its lists."""
     import icontract
 
-    class A(icontract.DBC):
-        @icontract.require(lambda x: x > 0)
-        @icontract.ensure(lambda result: result > 0)
-        def m(self, x):
-            return x
+    try:
+        class A(icontract.DBC):
+            @icontract.require(lambda x: x > 0)
+            @icontract.ensure(lambda result: result > 0)
+            def m(self, x):
+                return x
 
-        @icontract.require(lambda x: x > 0)
-        def __init__(self, x=1):
+            @icontract.require(lambda x: x > 0)
+            def __init__(self, x=1):
+                pass
+
+        class B(A):
             pass
 
-    class B(A):
-        pass
+        class C(B):
+            def __init__(self, x=-1):  # constructor contracts are not inherited
+                pass
 
-    class C(B):
-        def __init__(self, x=-1):  # constructor contracts are not inherited
-            pass
+        class D(B):
+            @icontract.require(lambda x: x < 0)  # own constructor preconditions are legal at any level
+            def __init__(self, x=-1):
+                pass
+    except BaseException as e:  # noqa
+        ctx.case(["structural", "definition"], True, sample={"directed": "A/B/C/D with constructor contracts"})
+        ctx.fail("structural|definition-rejected", {"directed": "definition"},
+                 "a hierarchy with constructor preconditions at two levels was rejected: %s: %s" % (type(e).__name__, e))
+        return
 
     ok = B.m is A.m and C.m is A.m
     ctx.case(["structural", "same-function"], True, sample={"directed": "B(A) without override: B.m is A.m"})
